@@ -169,7 +169,8 @@ func (c *Ctx) SecuritySchemes(n int, supportedOnly bool) []string {
 				break
 			}
 			haveBearer = true
-			s = &SecurityScheme{Type: "http", Scheme: "bearer"}
+			// (scheme names are case-insensitive; the IANA registry spells it Bearer)
+			s = &SecurityScheme{Type: "http", Scheme: rapid.SampledFrom([]string{"bearer", "bearer", "Bearer", "BEARER"}).Draw(t, "bearer_spelling")}
 		case "apikey-header":
 			s = &SecurityScheme{Type: "apiKey", In: "header", Name: "X-" + strings.Title(c.PlainName("key", "keyname"))}
 		case "apikey-query":
@@ -193,7 +194,7 @@ func (c *Ctx) SecuritySchemes(n int, supportedOnly bool) []string {
 // securityRequirement draws 1..2 OR-alternatives of one scheme each.
 func (c *Ctx) securityRequirement(names []string) []map[string][]string {
 	t := c.T
-	n := rapid.IntRange(1, min(2, len(names))).Draw(t, "nalternatives")
+	n := rapid.IntRange(1, min(3, len(names))).Draw(t, "nalternatives")
 	pick := rapid.SliceOfNDistinct(rapid.SampledFrom(names), n, n, rapid.ID[string]).Draw(t, "alternatives")
 	var out []map[string][]string
 	for _, p := range pick {
@@ -832,7 +833,7 @@ var SchemeKinds = []string{"bearer", "apikey-header", "apikey-query", "basic", "
 func (c *Ctx) scheme(kind, label string) *SecurityScheme {
 	switch kind {
 	case "bearer":
-		return &SecurityScheme{Type: "http", Scheme: "bearer"}
+		return &SecurityScheme{Type: "http", Scheme: rapid.SampledFrom([]string{"bearer", "bearer", "Bearer", "BEARER"}).Draw(c.T, "bearer_spelling_"+label)}
 	case "apikey-header":
 		return &SecurityScheme{Type: "apiKey", In: "header", Name: "X-" + strings.Title(c.PlainName("key", label))}
 	case "apikey-query":
@@ -946,7 +947,17 @@ func (c *Ctx) CorsDoc() *Doc {
 	d := c.Doc
 	var names []string
 	if rapid.Bool().Draw(t, "has_security") {
+		// (sometimes with schemes goag has no hook for: they contribute nothing to the
+		// preflight, wherever they stand among the alternatives)
 		names = c.SecuritySchemes(rapid.IntRange(1, 3).Draw(t, "nschemes"), true)
+		if rapid.IntRange(0, 2).Draw(t, "cors_unsupported_schemes") == 0 {
+			for _, k := range []string{"basic", "oauth2", "apikey-cookie", "oidc"}[rapid.IntRange(0, 3).Draw(t, "cors_unsupported_from"):] {
+				name := c.PlainName("sec", "uscheme")
+				c.comps().SecuritySchemes[name] = c.scheme(k, name)
+				names = append(names, name)
+				c.Tag("scheme:" + k)
+			}
+		}
 		if rapid.IntRange(0, 2).Draw(t, "global_security") == 0 {
 			sec := c.securityRequirement(names)
 			d.Security = &sec
